@@ -37,9 +37,10 @@ static inline int sqlite3_reset(struct sqlite3_stmt *s) { return g_api_ok ? 0 : 
 static inline int sqlite3_clear_bindings(struct sqlite3_stmt *s) { return g_api_ok ? 0 : 1; }
 long long g_bind_i64[10];
 static inline int sqlite3_bind_int64(struct sqlite3_stmt *s, int i, long long v) { g_bound_stmt = s; if (i >= 0 && i < 10) g_bind_i64[i] = v; return g_api_ok ? 0 : 1; }
-static inline int sqlite3_bind_text(struct sqlite3_stmt *s, int i, const char *p, int n, void *d) { g_bound_stmt = s; return g_api_ok ? 0 : 1; }
-unsigned g_stepped;
-static inline int sqlite3_step(struct sqlite3_stmt *s) { __CPROVER_assert(s == g_bound_stmt, "[P:C03] the statement that is stepped is the one that was just bound"); g_stepped++; return g_step_result; }
+struct sqlite3_stmt *g_text_stmt; const char *g_text_ptr; int g_text_len; unsigned g_text_binds;
+static inline int sqlite3_bind_text(struct sqlite3_stmt *s, int i, const char *p, int n, void *d) { g_bound_stmt = s; g_text_stmt = s; g_text_ptr = p; g_text_len = n; g_text_binds++; return g_api_ok ? 0 : 1; }
+unsigned g_stepped; int g_step_second;   /* result of a second step in the same call (select, then insert) */
+static inline int sqlite3_step(struct sqlite3_stmt *s) { __CPROVER_assert(s == g_bound_stmt, "[P:C03] the statement that is stepped is the one that was just bound"); int r = (g_stepped == 0) ? g_step_result : g_step_second; g_stepped++; return r; }
 static inline long long sqlite3_column_int64(struct sqlite3_stmt *s, int i) { __CPROVER_assert(i >= 0 && i < 9 && s == g_bound_stmt, "column of the stepped statement"); return g_col_i64[i]; }
 static inline int sqlite3_column_bytes(struct sqlite3_stmt *s, int i) { __CPROVER_assert(i >= 0 && i < 9 && s == g_bound_stmt, "column of the stepped statement"); return g_col_bytes[i]; }
 static inline const void *sqlite3_column_blob(struct sqlite3_stmt *s, int i) { __CPROVER_assert(i >= 0 && i < 9 && s == g_bound_stmt, "column of the stepped statement"); return g_col_blob[i]; }
@@ -70,3 +71,17 @@ static inline void benc_write_u64(struct benc *b, uint64_t w) { __CPROVER_assert
 static inline const void *benc_data(struct benc *b) { return g_enc_words; }
 static inline size_t benc_size(struct benc *b) { return 8 * g_enc_n; }
 static inline size_t vbytes_size(const vbytes *v) { return v->len; }
+/* --- ad-hoc statements (epoch functions, transaction bracket, key table) --- */
+const char *g_prepared_sql, *g_exec_sql; struct sqlite3_stmt g_adhoc_stmt; unsigned g_prepares, g_finalizes, g_execs; _Bool g_exec_ok; long long g_last_rowid;
+#define LIT4(s, o, a, b, c, d) ((s)[o] == a && (s)[(o) + 1] == b && (s)[(o) + 2] == c && (s)[(o) + 3] == d)
+static inline int sqlite3_prepare_v2(struct sqlite3 *db, const char *sql, int n, struct sqlite3_stmt **out, const char **tail) {
+  __CPROVER_assert(db != 0, "[P:C03] statements are prepared on an open connection");
+  g_prepares++; g_prepared_sql = sql; if (!g_api_ok) return 1; *out = &g_adhoc_stmt; return 0; }
+static inline int sqlite3_finalize(struct sqlite3_stmt *s) { g_finalizes++; return 0; }
+static inline int sqlite3_column_count(struct sqlite3_stmt *s) { return 1; }
+static inline int sqlite3_exec(struct sqlite3 *db, const char *sql, void *cb, void *arg, char **err) {
+  __CPROVER_assert(db != 0, "[P:C03,P:C04] statements are executed on an open connection");
+  g_execs++; g_exec_sql = sql; return g_exec_ok ? 0 : 5; }
+static inline long long sqlite3_last_insert_rowid(struct sqlite3 *db) { return g_last_rowid; }
+static inline int sqlite3_close(struct sqlite3 *db) { return 0; }
+keyt g_key_text;
